@@ -52,6 +52,21 @@ theorem cgEls_labels (mod : String) (ρ : String → Option String) (sp : Span) 
       List.append_nil]
     exact h1.append h2
 
+theorem cgFields_labels (mod : String) (ρ : String → Option String) (sp : Span) : ∀ (fs : List (String × Expr)) (lm : LM),
+    LblInv mod lm (cgFields mod ρ sp fs lm).2 (definedLabels (cgFields mod ρ sp fs lm).1) := by
+  intro fs
+  induction fs with
+  | nil => intro lm; exact LblInv.nil mod lm
+  | cons f fs ih =>
+    intro lm
+    have h1 := (cpE_labels mod ρ (Frag.depthE f.2)).1 f.2 lm (Nat.le_refl _)
+    have h2 := ih (cpE mod ρ f.2 lm).2
+    have hd : definedLabels [((Instr.dup : SInstr), sp), (.member f.1, sp)] = [] := rfl
+    simp only [cgFields, definedLabels_append, hd,
+      definedLabels_instr _ _ _ (rfl : isLabel (Instr.assign : SInstr) = false), definedLabels_nil,
+      List.append_nil, List.nil_append]
+    exact h1.append h2
+
 theorem cgE_labels (mod : String) (ρ φ : String → Option String) : ∀ (n : Nat),
     (∀ (e : Expr) (lm : LM), Frag.depthGE e ≤ n →
       LblInv mod lm (cgE mod ρ φ e lm).2 (definedLabels (cgE mod ρ φ e lm).1)) ∧
@@ -80,9 +95,21 @@ theorem cgE_labels (mod : String) (ρ φ : String → Option String) : ∀ (n : 
     refine ⟨?_, ?_, ?_, ?_⟩
     · intro e lm hd
       cases e
-      case int | bool | str | null | none | float | range | anyobj | obj | lambda | assign
-          | member | cast | blockE | tryE =>
+      case int | bool | str | null | none | float | range | anyobj | lambda | assign
+          | cast | blockE | tryE =>
         exact LblInv.nil mod lm
+      case obj sp ty fs =>
+        simp only [cgE, definedLabels_append,
+          definedLabels_instr _ _ _ (rfl : isLabel (Instr.cloningPush _ : SInstr) = false), definedLabels_nil,
+          List.nil_append]
+        exact cgFields_labels mod ρ sp fs lm
+      case member sp ty b name mop =>
+        cases mop <;> try exact LblInv.nil mod lm
+        simp only [Frag.depthGE] at hd
+        simp only [cgE, definedLabels_append,
+          definedLabels_instr _ _ _ (rfl : isLabel (Instr.member _ : SInstr) = false), definedLabels_nil,
+          List.append_nil]
+        exact ihE b lm (by omega)
       case list sp ty xs =>
         simp only [cgE, definedLabels_append,
           definedLabels_instr _ _ _ (rfl : isLabel (Instr.cloningPush _ : SInstr) = false), definedLabels_nil,
@@ -332,6 +359,18 @@ theorem cgS_labels (mod fn : String) (φ : String → Option String) : ∀ (n : 
               definedLabels_instr _ _ _ (rfl : isLabel (Instr.assign : SInstr) = false),
               definedLabels_nil, List.append_nil]
             exact (cgE_lbl mod _ φ (.index isp ity b i) env.lm).append (cgE_lbl mod _ φ r _)
+          case member msp mty b name mop =>
+            cases mop <;> try (cases op <;> exact LblInv.nil mod env.lm)
+            have hpre : definedLabels (opPre op asp) = [] := by cases op <;> rfl
+            have hpost : definedLabels (opPost op asp) = [] := by
+              cases op with
+              | none => rfl
+              | some o => cases o <;> rfl
+            rw [cgS_memAssign]
+            simp only [definedLabels_append, hpre, hpost,
+              definedLabels_instr _ _ _ (rfl : isLabel (Instr.assign : SInstr) = false),
+              definedLabels_nil, List.append_nil]
+            exact (cgE_lbl mod _ φ (.member msp mty b name .dot) env.lm).append (cgE_lbl mod _ φ r _)
           cases op
           · rename_i g _ sg
             cases g <;> cases sg <;> try exact LblInv.nil mod env.lm
